@@ -26,7 +26,7 @@ ASSUMPTIONS = ["trusted base: the library's fresh-construction path (checked by 
                "transient states between the public setters of a compound edit are never read"]
 FLOORS = {'quick': {'fresh-compare': 4000, 'shadow': 600, 'copy-independence': 150, 'container-read': 150},
           'thorough': {'fresh-compare': 40000, 'shadow': 6000, 'copy-independence': 1500}}
-MANDATORY_TAGS = ['kept-sizes:other-object-resized', 'shared-tessellator', 'refused-edit', 'sampling:takes-the-value-of-another-direction', 'kept-sizes', 'kept-sizes:given-to-another-object', 'curve', 'surface', 'volume', 'rational', 'container', 'copy', 'op:reverse', 'op:transpose', 'op:flip', 'op:insert',
+MANDATORY_TAGS = ['refused-edit:remove-clamping-knot', 'refused-edit:list-setter-degree', 'refused-edit:reverse-before-knotvector', 'kept-sizes:other-object-resized', 'shared-tessellator', 'refused-edit', 'sampling:takes-the-value-of-another-direction', 'kept-sizes', 'kept-sizes:given-to-another-object', 'curve', 'surface', 'volume', 'rational', 'container', 'copy', 'op:reverse', 'op:transpose', 'op:flip', 'op:insert',
                   'op:remove', 'op:refine', 'op:weights', 'op:ctrlpts', 'op:delta', 'op:translate', 'op:degree', 'op:knotvector',
                   'op:container-add', 'op:container-transform', 'op:container-deepcopy', 'read-mutate-read', 'op:container-delta-one-direction']
 TECHNIQUE = ("runtime monitoring: history driver with an online differential oracle (every read of a derived view vs the same read "
@@ -204,6 +204,33 @@ def check_refused_edit(case, ctx):
     rng = random.Random(case['seed'])
     sd = case['sd']
     pdim = sd['pdim']
+    if pdim == 1 and rng.random() < 0.25:
+        # (sixth hunt) a curve which has its degree, control points and weights but no knot vector yet is asked to reverse itself: the
+        # library cannot (IndexError) - and the three control point views still agree with each other afterwards
+        from geomdl import NURBS, BSpline
+        ctx.tag('refused-edit', 'curve', 'refused-edit:reverse-before-knotvector')
+        ctx.nontriv(True)
+        c_ = (NURBS.Curve if sd['rational'] else BSpline.Curve)()
+        c_.degree = sd['degrees'][0]
+        c_.ctrlpts = [list(p_) for p_ in sd['ctrlpts']]
+        if sd['rational']:
+            c_.weights = list(sd['weights'])
+            _ = list(c_.weights), [list(p_) for p_ in c_.ctrlpts]
+        pts0 = [list(p_) for p_ in c_.ctrlpts]
+        try:
+            c_.reverse()
+        except Exception:
+            pass
+        else:
+            raise Reject()
+        pts1 = [list(p_) for p_ in c_.ctrlpts]
+        okv = near(pts1, pts0, 1e-12)
+        if sd['rational']:
+            okv = okv and near([[c * w for c in p_] + [w] for p_, w in zip(c_.ctrlpts, c_.weights)], [list(p_) for p_ in c_.ctrlptsw], 1e-12)
+        ctx.check(okv, 'refused-edit/state-changed', 'reverse() of a curve without a knot vector raised and left the control points changed '
+                  '(ctrlpts %r..., before %r...; the weighted points and the cached views disagree: %s)' % (pts1[:1], pts0[:1], sd['rational']),
+                  what='fresh-equal')
+        return
     o = G.build(sd)
     o.sample_size = {1: 5, 2: 3, 3: 2}[pdim]
     ctx.tag('refused-edit', {1: 'curve', 2: 'surface', 3: 'volume'}[pdim])
@@ -211,10 +238,38 @@ def check_refused_edit(case, ctx):
     names = views_for(o)
     before = dict((nm, copy.deepcopy(view(o, nm))) for nm in names)
     dg0 = digest(o)
-    how = rng.choice(['ragged-ctrlpts', 'ragged-set_ctrlpts', 'missing-sizes', 'small-ctrlpts2d', 'ragged-ctrlptsw'])
+    how = rng.choice(['ragged-ctrlpts', 'ragged-set_ctrlpts', 'missing-sizes', 'small-ctrlpts2d', 'ragged-ctrlptsw',
+                      'remove-clamping-knot', 'list-setter-degree', 'list-setter-knotvector'])
+    if pdim == 1 and G.degrees_of(o)[0] >= 2 and rng.random() < 0.4:
+        how = 'remove-clamping-knot'
     refused = False
     try:
-        if how == 'ragged-ctrlpts':
+        if how == 'remove-clamping-knot':
+            # (sixth hunt) a removal the library cannot carry out: two copies of the clamping start (or end) knot of a curve
+            from geomdl import operations as ops_
+            if pdim != 1 or G.degrees_of(o)[0] < 2:
+                raise Reject()
+            kv_ = G.kvs_of(o)[0]
+            ops_.remove_knot(o, [rng.choice([kv_[0], kv_[-1]])], [2])
+        elif how == 'list-setter-degree':
+            # (sixth hunt) the list form of the degree setter with a valid first and an invalid later entry
+            if pdim == 1:
+                raise Reject()
+            dg_ = list(G.degrees_of(o))
+            dg_[0] = max(1, dg_[0] - 1) if dg_[0] > 1 else dg_[0] + 1
+            dg_[-1] = 0
+            o.degree = dg_
+        elif how == 'list-setter-knotvector':
+            if pdim == 1:
+                raise Reject()
+            kvs_ = [list(kv) for kv in G.kvs_of(o)]
+            a_, b_ = kvs_[0][0], kvs_[0][-1]
+            p0_ = G.degrees_of(o)[0]
+            inner_ = len(kvs_[0]) - 2 * (p0_ + 1)
+            kvs_[0] = [a_] * (p0_ + 1) + [a_ + (b_ - a_) * (k_ + 1) / (inner_ + 1.0) * 0.9 for k_ in range(inner_)] + [b_] * (p0_ + 1)
+            kvs_[-1] = kvs_[-1][:-1]
+            o.knotvector = kvs_
+        elif how == 'ragged-ctrlpts':
             bad = [list(p_) for p_ in o.ctrlpts]
             bad[rng.randrange(1, len(bad))] = bad[0][:-1]
             o.ctrlpts = bad
